@@ -46,6 +46,9 @@ type Engine struct {
 	inconMu sync.Mutex
 	incon   map[string]bool
 
+	fnInfos  sync.Map
+	fnMetas  sync.Map
+	constVal sync.Map
 	sampleMu sync.Mutex
 	nsample  int
 }
